@@ -449,6 +449,13 @@ def run_prog_case(ctx, c, lines, pending):
                      'P(x)': [float(v) for v in res['oop'][1]] if st == 'ok' else st}
              if c['n'] * c['mc'] <= 3 else None)
     ctx.hit('prog/{}/{}'.format(plan.mid, plan.flags or '-'))
+    if st == 'ok' and plan.mid == 'l2':
+        gz = c['bufs']['g'] if c['bufs']['g'] is not None else np.zeros_like(c['x'])
+        ctx.hit('branch/l2/' + ('step>=1(set_zero|assign g)' if np.array_equal(res['oop'][1], gz)
+                                else 'step<1(lincomb)'))
+    if st == 'ok' and plan.mid in ('linfty', 'ccLinfty'):
+        inside = np.sum(np.abs(c['x'])) <= (c['par']['sigma'] if plan.mid == 'linfty' else 1.0)
+        ctx.hit('branch/proj_l1/' + ('inside-ball(copy)' if inside else 'outside(simplex)'))
     if st != 'ok':
         ctx.err(st.split(':')[1])
         return
@@ -650,12 +657,12 @@ def prog_stream(ctx, reps):
 
 def run(ctx):
     check_class_set(ctx)
-    reps = 2 if ctx.quick else 12
+    reps = 2 if ctx.quick else 40
     lines, pending = prog_stream(ctx, reps)
     outs = core.run_driver('C10', lines)
     compare_model(ctx, pending, outs)
-    run_oracle_stream(ctx, wrapper_cases(ctx, 1 if ctx.quick else 4), 'wrapper')
-    run_oracle_stream(ctx, functional_cases(ctx, 1 if ctx.quick else 4), 'functional')
+    run_oracle_stream(ctx, wrapper_cases(ctx, 1 if ctx.quick else 10), 'wrapper')
+    run_oracle_stream(ctx, functional_cases(ctx, 1 if ctx.quick else 10), 'functional')
 
 
 def search(ctx, broken):
